@@ -13,6 +13,7 @@ initial value of the argmin loop, the guards of _select_candidates, names of the
 are carried into the generated text, so Props/C05.v has to re-prove the equality with Model.Select.
 """
 import ast
+from . import srcnorm as _srcnorm
 import os
 from fractions import Fraction
 
@@ -29,8 +30,7 @@ BOUND_MEMBERS = ['UNBOUNDED', 'SEMI_BOUNDED', 'BOUNDED']
 
 
 def _parse(path):
-    with open(path) as f:
-        return ast.parse(f.read())
+    return _srcnorm.parse_file(path)
 
 
 def _body(fn):
